@@ -33,6 +33,13 @@ CLAIMED = {
             "Trusted: CrossHair + z3; the representation invariant is checked to be inductive by two of the obligations; "
             "logging statements are compiled out (vlib.nolog).",
             "DESIGN.md §1 C04"),
+    "C07": ("CrossHair/z3 symbolic execution of the real handle_proxied_packet / AddonManager hook dispatch / ProxiedCircuit "
+            "ownership guards with a symbolic fault schedule (behaviour per addon hook and subscriber, direction, reliable bit) "
+            "and all operation sequences up to length 4, compared with a reference ownership model",
+            "Bounded symbolic model checking of the fault schedule: every assignment of the 11 behaviours to 2 (quick) / 3 "
+            "(thorough) addons x subscriber variants is explored path-exhaustively.",
+            "Trusted: CrossHair + z3; snapshot serializer instead of the byte codec; deserializer stub; addon hot-reload stub.",
+            "DESIGN.md §1 C07"),
     "C08": ("CrossHair/z3 symbolic execution of the real combinator serialize/deserialize/calc_size on spec trees composed "
             "from a leaf alphabet (one obligation per tree shape), with symbolic values, byte order, pod mode and trailing bytes",
             "Bounded symbolic model checking: for each composed spec every value of its domain within the stated size bounds "
